@@ -62,6 +62,12 @@ func (m *Mutex) Unlock() {
 	rt.Yield(SiteUnlock)
 }
 
+// ProbeTryLock / ProbeUnlock take and release the real mutex without yielding
+// (harness probes only): a probe that inspects the protected state must hold the
+// lock while it reads, or the race detector rightly reports the probe itself.
+func (m *Mutex) ProbeTryLock() bool { return m.mu.TryLock() }
+func (m *Mutex) ProbeUnlock()       { m.mu.Unlock() }
+
 // IsFree reports whether the mutex is currently not held (harness probes only).
 func (m *Mutex) IsFree() bool {
 	if m.mu.TryLock() {
@@ -117,8 +123,8 @@ func (m *RWMutex) RUnlock() {
 	rt.Yield(SiteRUnlock)
 }
 
-func (m *RWMutex) TryLock() bool  { rt.Yield(SiteLock); return m.mu.TryLock() }
-func (m *RWMutex) TryRLock() bool { rt.Yield(SiteRLock); return m.mu.TryRLock() }
+func (m *RWMutex) TryLock() bool   { rt.Yield(SiteLock); return m.mu.TryLock() }
+func (m *RWMutex) TryRLock() bool  { rt.Yield(SiteRLock); return m.mu.TryRLock() }
 func (m *RWMutex) RLocker() Locker { return (*rlocker)(m) }
 
 type rlocker RWMutex
